@@ -229,11 +229,11 @@ fn replay(rep: &serde_json::Value) -> Result<(bool, String), String> {
     }
     #[cfg(feature = "full")]
     {
-        if scenario.starts_with("c02.") || scenario.starts_with("c17.") || scenario.starts_with("c18.") || scenario.starts_with("c03.") || scenario.starts_with("c01.") {
-            return scen_proof::replay(rep);
-        }
         if scenario == "c01.oods-binding" {
             return scen_c01::replay_oods_binding(rep);
+        }
+        if scenario.starts_with("c02.") || scenario.starts_with("c17.") || scenario.starts_with("c18.") || scenario.starts_with("c03.") || scenario.starts_with("c01.") {
+            return scen_proof::replay(rep);
         }
         if scenario.starts_with("c19.") {
             return scen_c19::replay(rep);
